@@ -197,8 +197,26 @@ def run_structure_vector(vec):
         kw["inflow_at"] = ["start", "middle", "end"][variant % 3]     # documented to be ignored for n > 1
     problems = []
     try:
+        if variant % 3 == 1:
+            # plain (non-FlodymArray) parameters handed over in a NARROW dtype that represents them exactly: numpy float32 scalars /
+            # arrays - the tables are those of the same numbers in double precision
+            def narrow(x):
+                if isinstance(x, FlodymArray):
+                    return x
+                y = np.asarray(x, dtype=np.float32)
+                if not np.array_equal(y.astype(float), np.asarray(x, dtype=float)):
+                    return x
+                return y if y.ndim else np.float32(x)
+            a1, a2 = narrow(a1), narrow(a2)
         if variant % 2:
             lm = cls(**kw)
+            if variant == 5:
+                # a LONG parameter history on the same object: twenty distinct parameterisations, each one used (tables read), the
+                # twelfth being the parameters compared below - which are then set again
+                for k in range(1, 21):
+                    f = 1.0 if k == 12 else 1.0 + k / 64.0
+                    lm.set_prms(**{names[0]: a1 * f, names[1]: a2})
+                    _ = np.array(lm.sf), np.array(lm.pdf)
             if variant % 4 == 3:
                 # the model is USED once with other parameters (tables read) before it gets the ones compared below: whatever it
                 # remembers from the first parameterisation must not enter the second table
